@@ -7,12 +7,13 @@
 //!   impl_vs_spec  `compile_matcher().is_match(p)`  vs  `docMatch` (Lean, Spec/GlobDoc) for globs in the documented grammar
 //!   impl_vs_model `Glob::regex()` text, build errors, single-glob answers, set answers  vs  the Lean model
 //!   model_vs_spec model set vs model single answers outside the `lastCompDots` class (theorem `C12_set`)
-use globset::{Glob, GlobBuilder, GlobSetBuilder};
+use globset::{Candidate, Glob, GlobBuilder, GlobSet, GlobSetBuilder};
 use rgverif_harness::*;
 use std::ffi::OsStr;
 use std::os::unix::ffi::OsStrExt;
 
 const TIE_SET: &str = "GlobSet::matches vs Glob::compile_matcher().is_match (property, sentence 1)";
+const TIE_INTO: &str = "GlobSet::matches_into / matches_candidate_into with ONE reused Vec across a history of calls (empty sets included) vs GlobSet::matches of a fresh call (documented: `into` is cleared before matching begins) and vs Model.GlobSet.matchesCandidateInto with the model's own buffer threaded (theorem C12_into_history)";
 const TIE_DOC: &str = "Glob::compile_matcher().is_match vs Spec.GlobDoc.docMatch (documented syntax)";
 const TIE_M: &str = "globset (Glob::regex, compile_matcher, GlobSet::matches) vs Model.Glob.{parse,toRegex,tokMatch} / Model.GlobSet.setMatches (theorems C12_set, strategy_eq_regex)";
 
@@ -604,6 +605,180 @@ fn run_case(globs_in: &[G], paths: &[Vec<u8>], drv: &mut Driver, rep: &mut Repor
     out
 }
 
+/// One step of an API history: which `*_into` entry point, how the set is made, its globs, the path.
+#[derive(Clone)]
+struct Step {
+    api: char,  // 'i' = matches_into, 'c' = matches_candidate_into
+    ctor: char, // 'b' = GlobSetBuilder (also with no glob), 'e' = GlobSet::empty(), 'd' = GlobSet::default()
+    globs: Vec<G>,
+    path: Vec<u8>,
+}
+
+fn hist_line(steps: &[Step]) -> String {
+    let v: Vec<String> = steps
+        .iter()
+        .map(|s| {
+            let g: Vec<String> = s.globs.iter().map(|g| g.enc()).collect();
+            format!("{}|{}|{}|{}", s.api, s.ctor, if g.is_empty() { "-".to_string() } else { g.join(",") }, if s.path.is_empty() { "-".to_string() } else { hex(&s.path) })
+        })
+        .collect();
+    format!("hist {}", v.join(" "))
+}
+
+fn parse_hist(line: &str) -> Option<Vec<Step>> {
+    let mut it = line.split_whitespace();
+    if it.next()? != "hist" {
+        return None;
+    }
+    let mut steps = vec![];
+    for w in it {
+        let f: Vec<&str> = w.split('|').collect();
+        if f.len() != 4 || f[0].len() != 1 || f[1].len() != 1 {
+            return None;
+        }
+        let globs: Option<Vec<G>> = if f[2] == "-" { Some(vec![]) } else { f[2].split(',').map(G::dec).collect() };
+        let path = if f[3] == "-" { vec![] } else { unhex(f[3])? };
+        steps.push(Step { api: f[0].chars().next()?, ctor: f[1].chars().next()?, globs: globs?, path });
+    }
+    Some(steps)
+}
+
+/// Runs a history with ONE `Vec<usize>` handed to every call (the documented way to use the `*_into` API) and,
+/// in parallel, the model with its own buffer threaded through `matchesCandidateInto`.
+fn run_hist(steps: &[Step], drv: &mut Driver, rep: &mut Report, quiet: bool) -> Vec<Violation> {
+    let mut out = vec![];
+    let mut buf: Vec<usize> = vec![];
+    let mut mbuf: String = String::new(); // the model's buffer, as the driver printed it ("" = empty)
+    for (k, st) in steps.iter().enumerate() {
+        let case = hist_line(&steps[..=k]);
+        let mk = |kind: &str, class: &str, tie: &str, detail: String| Violation { kind: kind.into(), class: class.into(), tie: tie.into(), case: case.clone(), detail };
+        // only globs that build and whose printed regex is valid take part (the others are the business of run_case)
+        let mut globs: Vec<G> = vec![];
+        let mut built: Vec<Glob> = vec![];
+        if st.ctor == 'b' {
+            for g in &st.globs {
+                if let Ok(b) = g.build() {
+                    let m = drv.ask(&format!("c12.parse {}", g.sx()));
+                    let f: Vec<&str> = m.split(' ').collect();
+                    if f.len() == 6 && f[0] == "ok" && f[4] == "1" {
+                        globs.push(g.clone());
+                        built.push(b);
+                    }
+                }
+            }
+        }
+        let set = match st.ctor {
+            'e' => GlobSet::empty(),
+            'd' => GlobSet::default(),
+            _ => {
+                let mut sb = GlobSetBuilder::new();
+                for b in &built {
+                    sb.add(b.clone());
+                }
+                match sb.build() {
+                    Ok(s) => s,
+                    Err(_) => continue,
+                }
+            }
+        };
+        let os = OsStr::from_bytes(&st.path);
+        let before = buf.clone();
+        if st.api == 'c' {
+            set.matches_candidate_into(&Candidate::new(os), &mut buf);
+        } else {
+            set.matches_into(os, &mut buf);
+        }
+        let fresh = set.matches(os);
+        let want: Vec<usize> = built.iter().enumerate().filter(|(_, b)| b.compile_matcher().is_match(os)).map(|(i, _)| i).collect();
+        let gsx: Vec<String> = globs.iter().map(|g| g.sx()).collect();
+        let bsx = if mbuf.is_empty() { String::new() } else { format!(" {}", mbuf.replace(',', " ")) };
+        let m = drv.ask(&format!("c12.into (buf{}) (globs {}) {}", bsx, gsx.join(" "), hex(&st.path)).replace("(globs )", "(globs)"));
+        if !quiet {
+            rep.eval();
+            rep.branch(&format!("history:step:{}:{}", if st.api == 'c' { "matches_candidate_into" } else { "matches_into" }, match st.ctor { 'e' => "GlobSet::empty", 'd' => "Default", _ => if globs.is_empty() { "builder-without-globs" } else { "builder" } }));
+            if set.is_empty() && !before.is_empty() {
+                rep.branch("history:empty-set-after-non-empty-answer");
+            }
+            if !before.is_empty() && buf != before {
+                rep.branch("history:buffer-replaced");
+            }
+        }
+        let class = if dots_class(&st.path) { "last-component-dot-or-dotdot" } else { "" };
+        if buf != fresh {
+            out.push(mk("impl_vs_spec", "", TIE_INTO, format!("step {} ({} globs, path {:?}): the reused Vec holds [{}] after the call (it held [{}] before), a fresh matches() gives [{}]", k, built.len(), show(&st.path), idx_list(&buf), idx_list(&before), idx_list(&fresh))));
+        }
+        if buf != want && fresh == want {
+            out.push(mk("impl_vs_spec", class, TIE_SET, format!("step {} path {:?}: the reused Vec holds [{}], the globs matching individually are [{}]", k, show(&st.path), idx_list(&buf), idx_list(&want))));
+        }
+        match m.strip_prefix("ok ") {
+            Some(mb) => {
+                if mb != idx_list(&buf) {
+                    out.push(mk("impl_vs_model", "", TIE_INTO, format!("step {} path {:?}: the reused Vec holds [{}] (before: [{}]), the model's buffer holds [{}]", k, show(&st.path), idx_list(&buf), idx_list(&before), mb)));
+                }
+                mbuf = if mb == "-" { String::new() } else { mb.to_string() };
+            }
+            None => out.push(mk("impl_vs_model", "", TIE_INTO, format!("model reply {:?}", m))),
+        }
+        if !out.is_empty() {
+            break;
+        }
+    }
+    out
+}
+
+fn run_hist_and_report(steps: &[Step], drv: &mut Driver, rep: &mut Report) {
+    let vs = run_hist(steps, drv, rep, false);
+    let mut seen: Vec<(String, String)> = vec![];
+    for v in vs {
+        let key = (v.kind.clone(), v.class.clone());
+        if seen.contains(&key) {
+            continue;
+        }
+        seen.push(key);
+        // shrink: drop steps from the front while the same kind of violation remains
+        let mut best = v.clone();
+        if let Some(mut cur) = parse_hist(&v.case) {
+            loop {
+                if cur.len() <= 1 {
+                    break;
+                }
+                let cand: Vec<Step> = cur[1..].to_vec();
+                match run_hist(&cand, drv, rep, true).into_iter().find(|x| x.kind == v.kind && x.class == v.class) {
+                    Some(b) => {
+                        best = b;
+                        cur = cand;
+                    }
+                    None => break,
+                }
+            }
+        }
+        rep.violation(best);
+    }
+}
+
+fn gen_hist(rng: &mut Rng) -> Vec<Step> {
+    let n = rng.range(2, 7);
+    let mut steps = vec![];
+    // a common pool of paths so that consecutive sets tend to answer non-trivially
+    let pool_globs: Vec<G> = (0..4).map(|_| gen_glob(rng)).collect();
+    let pool = gen_paths(rng, &pool_globs, 8);
+    for _ in 0..n {
+        let api = if rng.chance(1, 2) { 'i' } else { 'c' };
+        let (ctor, globs) = match rng.below(8) {
+            0 => ('e', vec![]),
+            1 => ('d', vec![]),
+            2 => ('b', vec![]),
+            _ => {
+                let k = rng.range(1, 4);
+                ('b', (0..k).map(|_| if rng.chance(1, 2) { rng.pick(&pool_globs).clone() } else { gen_glob(rng) }).collect())
+            }
+        };
+        let path = if pool.is_empty() { b"a".to_vec() } else { rng.pick(&pool).clone() };
+        steps.push(Step { api, ctor, globs, path });
+    }
+    steps
+}
+
 /// run, shrink the first violation of each kind a little, report
 fn run_and_report(globs: &[G], paths: &[Vec<u8>], drv: &mut Driver, rep: &mut Report) {
     let o = run_case(globs, paths, drv, rep, false);
@@ -644,9 +819,14 @@ fn main() {
          Globs: token grammar (literals over {a,b,.,/,-,A}, ?, *, **, classes incl. negated/ranges, one level of alternates, escapes), shapes steering all seven strategies, \
          the four option flags per glob; paths: instantiations of the globs and their mutations, strings over {a,b,.,/,-,A} (all of them up to the stated length in the exhaustive stream), longer ones, non-UTF-8 bytes, names ending in '.'. \
          The documented-syntax comparison is made only for globs inside the documented grammar (Spec.GlobDoc.okGlob): ** only as a whole component outside braces, balanced one-level braces with at least one kept branch, \
-         no '-' directly after a class range, no '\\' inside a class, ASCII only, the glob is not just '**/'; everything else is still compared set-vs-glob and against the model.",
+         no '-' directly after a class range, no '\\' inside a class, ASCII only, the glob is not just '**/'; everything else is still compared set-vs-glob and against the model. \
+         API histories: sequences of 2-6 calls of matches_into / matches_candidate_into that all receive the same Vec, over sets built by GlobSetBuilder (also with no glob), GlobSet::empty() and Default; after every call the Vec is compared with a fresh matches(), with the individually matching globs and with the model's threaded buffer.",
     );
     for line in corpus_cases(&args) {
+        if let Some(steps) = parse_hist(&line) {
+            run_hist_and_report(&steps, &mut drv, &mut rep);
+            continue;
+        }
         match parse_case(&line) {
             Some((gs, ps)) => run_and_report(&gs, &ps, &mut drv, &mut rep),
             None => rep.notes.push(format!("unparsable corpus case: {}", line)),
@@ -663,6 +843,15 @@ fn main() {
                 rep.sample(case_line(&globs, &paths[..paths.len().min(6)]));
             }
             run_and_report(&globs, &paths, &mut drv, &mut rep);
+        }
+        // API histories: one Vec reused across matches_into / matches_candidate_into calls, empty sets included
+        let nh = if args.thorough { 4000 } else { 400 };
+        for i in 0..nh {
+            let steps = gen_hist(&mut rng);
+            if i < 2 {
+                rep.sample(hist_line(&steps));
+            }
+            run_hist_and_report(&steps, &mut drv, &mut rep);
         }
         // exhaustive small scope: every glob of ≤ 3 pieces from a fixed piece alphabet, under the four
         // (literal_separator, case_insensitive) settings, against every path over {a,b,.,/,-,A} up to the bound
